@@ -493,6 +493,19 @@ NAME_SOURCES = [
 ]
 
 
+class _EqualsAnything(object):
+    def __eq__(self, other):
+        return True
+
+    def __ne__(self, other):
+        return False
+
+    __hash__ = object.__hash__
+
+    def __repr__(self):
+        return '<equals anything>'
+
+
 def check_factory(c, st):
     """Functions made by one factory (same code object) whose defaults are equal without being the same (1, True, 1.0;
     0, False, -0.0): each wrapper carries ITS function's defaults, in the signature and in what it forwards."""
@@ -595,6 +608,17 @@ def check_names(c, st):
             got = [(x.name, x.kind, x.default) for x in inspect.signature(wi, follow_wrapped=False).parameters.values()]
             if got != [(x.name, x.kind, x.default) for x in params if x.name != q.name]:
                 return ('injected:names', '%s with injected=%r -> %s' % (head, q.name, inspect.signature(wi, follow_wrapped=False)))
+    # a new parameter whose default compares equal to everything (a matcher object): still "a default"
+    any_default = _EqualsAnything()
+    st.monitor_evals += 1
+    try:
+        we = fu.wraps(f, expected={'zz_new': any_default})(passthrough)
+        pe = inspect.signature(we, follow_wrapped=False).parameters
+    except Exception as e:
+        return ('expected-raised:names:%s' % type(e).__name__, 'wraps(%s, expected={name: matcher}) raised %r' % (head, e))
+    if 'zz_new' not in pe or pe['zz_new'].default is not any_default or \
+            [(x.name, x.kind, x.default) for n_, x in pe.items() if n_ != 'zz_new'] != [(x.name, x.kind, x.default) for x in params]:
+        return ('expected:names:matcher-default', '%s with expected={zz_new: <object equal to everything>} -> %s' % (head, inspect.signature(we, follow_wrapped=False)))
     st.count('name_and_docstring_cases')
     st.see(('names', c['names'], c.get('doc_assigned')))
     return None
@@ -602,7 +626,8 @@ def check_names(c, st):
 
 def run(ctx):
     sigs = list(all_signatures())
-    if ctx.shard == 0:
+    if ctx.shard in (0, ctx.nshards - 1):
+        # (also on the last shard, which runs with -OO: docstrings and asserts stripped from compiled code)
         shr0 = {}
         for i in range(len(NAME_SOURCES)):
             for doc in (None, 'assigned\n    later  ', ''):
